@@ -536,7 +536,7 @@ fn sweep_all_positions(ctx: &Ctx, rep: &mut Report, props: &[&'static str]) {
                     drive(&mut m2, &mut s2, &[phase_time_op(phase, 0.001), format!("tick*{}", jumps + nres)], pr, &mut sink);
                     if m2.a.verif_phase_bits() == m.a.verif_phase_bits() && m2.m.phase == phase {
                         lc.count("overlap_positions_compared", 1);
-                        if m2.a.value().to_bits() != m.a.value().to_bits() && pr.contains(&"C01") {
+                        if (m2.a.value() as f64 - m.a.value() as f64).abs() > 4.0 * f32::EPSILON as f64 && pr.contains(&"C01") {
                             lc.violation(Violation { prop: "C01", class: "history-dependent-value".into(), detail: format!("position {} of {} with level {:?}: value {:?} when walked slowly, {:?} when reached by coarse ticks", target, PH[phase as usize], lv, m.a.value(), m2.a.value()), machine: "adsr", config: m.config(), ops: script.clone() });
                         }
                     }
